@@ -7,6 +7,11 @@ Space   : programs whose own syntax python3.8 compiles (asked of 3.8 itself), dr
 Matrix  : (program x 8 option combinations x host in {3.12} quick / {3.10, 3.11, 3.12, 3.13} thorough)
           -> distinct output texts -> each evaluated on every runtime in {3.8 .. 3.13} by a batch
           worker running under that interpreter.
+Syntax  : additionally every in-scope expression tree of C03's space (depth <= 1 in full, depth 2 over
+          the hazard slots (quick) / in full (thorough), depth 3 over outer x hazard/all x inner sets, all
+          shape families) is unparsed by the
+          oneliner unparser on this host and must parse, to the same tree, on every runtime on which
+          the tree is denotable (witness: ast.unparse text of the host or python3.9's re-rendering).
 Oracle  : on runtime r: the text compiles in eval mode and the observation of eval(text) equals the
           observation of exec(source) ON THE SAME r (C01's oracle, computed inside r).
 """
@@ -58,7 +63,50 @@ def fstring_programs():
             yield "c15:str:%s:%s" % (ctx, ascii(s)), "x = 7\nf = str\nr = %s\nprint(ascii(r))\n" % t
 
 
+SYNTAX_SENSITIVE = {
+    "star-index-load": "t = {(1, 2): 'v'}\npos = (1,)\nprint(t[(*pos, 2)])\n",
+    "star-index-store": "t = {}\npos = (1,)\nt[(*pos, 2)] = 5\nprint(t)\n",
+    "star-index-aug": "t = {(1, 2): 1}\npos = (1,)\nt[(*pos, 2)] += 5\nprint(t)\n",
+    "star-index-in-func": "def f(t, pos):\n    def g():\n        return pos\n    t[(*pos, 0)] = g()\n    return t[(*pos, 0)]\nprint(f({}, (1,)))\n",
+    "star-index-only": "t = {(1, 2): 'v'}\npos = (1, 2)\nprint(t[(*pos,)])\n",
+    "walrus-setcomp-elt": "xs = [1, 2]\nr = {(y := x * 2) for x in xs}\nprint(sorted(r), y)\n",
+    "walrus-genexp-solearg": "ws = ['a', 'bb']\nprint(any((hit := w) for w in ws), hit)\n",
+    "walrus-listcomp-elt": "r = [(y := x) for x in range(3)]\nprint(r, y)\n",
+    "walrus-dictcomp": "r = {(k := x): (v := x * 2) for x in range(2)}\nprint(r, k, v)\n",
+    "walrus-index": "a = [1, 2, 3]\nprint(a[(i := 1)], i, a[(j := 0):(k := 2)], j, k)\n",
+    "walrus-in-call-kw": "def f(**k):\n    return k\nprint(f(a=(z := 3)), z)\n",
+    "walrus-in-fstring": "print(f'{(q := 5)} {q!r:>3}')\n",
+    "walrus-lambda-default": "f = lambda a=(d := 4): a + d\nprint(f(), d)\n",
+    "walrus-while": "it = iter([2, 1, 0, 9])\nwhile (n := next(it)):\n    print(n)\nprint(n)\n",
+    "posonly": "def f(a, b=2, /, c=3, *, d=4):\n    return a, b, c, d\nprint(f(1), f(1, 5, c=6, d=7))\n",
+    "posonly-lambda": "f = lambda a, /, b=1: (a, b)\nprint(f(0), f(0, b=2))\n",
+    "fstring-eq": "x = 3\nprint(f'{x=} {x = :>4} {x + 1 = }')\n",
+    "fstring-quotes-in-field": "d = {'k': 1}\nprint(f\"{d['k']} {'lit'} {d['k']:>{d['k'] + 3}}\")\n",
+    "fstring-nested-member": "class K:\n    v = 'cv'\n    s = f'{v}|{v!r}'\nprint(K.s)\n",
+    "fstring-shared-name": "def f(a):\n    def g():\n        return a\n    return f'{a}:{g()}:{a!r:>5}'\nprint(f('q'))\n",
+    "return-star-tuple": "def f(a):\n    return (*a, 1)\nprint(f([0]))\n",
+    "yieldless-star-assign": "a = [1, 2]\nb = (*a, 3)\nc = [*a, *b]\nd = {**{'x': 1}, 'y': 2}\nprint(b, c, d)\n",
+    "for-star-iter": "a = [1]\nfor x in (*a, 2):\n    print(x)\n",
+    "subscript-tuple-slices": "class R:\n    def __getitem__(s, k):\n        return k\nr = R()\nprint(r[1:2, ::3], r[1, 2], r[(1, 2)], r[1:2,], r[...], r[..., 0])\n",
+    "dict-set-in-fstring": "print(f'{ {1: 2}[1] } { {1, 2} } { {k: k for k in (1,)} }')\n",
+    "lambda-in-fstring": "print(f'{(lambda: 3)()} {(lambda a=1: a)()}')\n",
+    "conditional-in-fstring": "a = 1\nprint(f'{a if a else 0} {a!s:^5} {3 if a else 4:>{a + 2}}')\n",
+    "neg-index": "a = [1, 2, 3]\nprint(a[-1], a[-2:], a[::-1], (-1) ** 2, -1 ** 2, 2 ** -1)\n",
+    "big-literals": "print(10 ** 20, 1e308 * 10, -0.0, 1j * 1j, 0.1 + 0.2)\n",
+    "bytes-and-str-escapes": "print(b'\\x00\\xff\\n', 'q\\n\\t\\\\', '\\u20ac\\xe9', len('\\U0001F600'))\n",
+    "decorator-simple": "def d(f):\n    return f\n@d\ndef g():\n    return 1\n@d\nclass K:\n    pass\nprint(g(), K.__name__ == 'K')\n",
+    "class-kw-meta": "class M(type):\n    def __new__(m, n, b, d, **k):\n        return super().__new__(m, n, b, d)\n    def __init__(c, n, b, d, **k):\n        super().__init__(n, b, d)\nclass K(metaclass=M, flag=1):\n    pass\nprint(type(K).__name__)\n",
+    "global-nonlocal": "g = 0\ndef f():\n    global g\n    x = 1\n    def h():\n        nonlocal x\n        x += 1\n        return x\n    g = h()\n    return x\nprint(f(), g)\n",
+    "imports": "import os.path\nimport os.path as p\nfrom os import sep as s\nprint(os.path.sep == p.sep == s)\n",
+    "loops-break-else": "for i in range(3):\n    for j in range(3):\n        if j == 1:\n            break\n    else:\n        continue\n    if i == 1:\n        break\nelse:\n    print('no')\nprint(i, j)\n",
+    "unpack-nested-star": "(a, *b), c = [1, 2, 3], 4\nfor x, (y, *z) in [(1, (2, 3, 4))]:\n    pass\nprint(a, b, c, x, y, z)\n",
+    "aug-all": "x = 7\nx += 1\nx -= 2\nx *= 3\nx //= 2\nx %= 5\nx **= 2\nx <<= 1\nx >>= 1\nx |= 8\nx &= 12\nx ^= 5\nx /= 2\nprint(x)\nimport operator\n",
+}
+
+
 def programs(tier):
+    for k, src in SYNTAX_SENSITIVE.items():
+        yield "c15:syntax:" + k, src, None
     mx = 2 if tier == "quick" else 3
     for size in range(1, mx + 1):
         for k, src in compose.programs(size):
@@ -74,6 +122,55 @@ def programs(tier):
         yield "c15:" + k, src, None
     for k, src in fstring_programs():
         yield k, src, None
+
+
+def expr_cases(tier):
+    """(key, ast.unparse text on this host, expr_unparse text) for the in-scope trees of C03's space"""
+    import ast
+
+    from .. import exprspace as X
+    from . import c03
+
+    slots, leaves, _ = c03.space()
+    up = c03.unparser()
+    byname, lv = dict(slots), dict(leaves)
+    names = [s[0] for s in slots]
+    lnames = [l[0] for l in leaves]
+    hz = [h for h in c03.HAZARD if h in byname]
+
+    def emit(key, e):
+        want = X.ndump(e)
+        if not X.in_scope(e, want):
+            return None
+        try:
+            return key, ast.unparse(e), up(e)
+        except Exception:
+            return None  # C03 reports unparser failures
+
+    combos = [(o, l) for o in names for l in lnames]
+    d2 = [(o, i, l) for o in (hz if tier == "quick" else names) for i in (hz if tier == "quick" else names) for l in (c03.LEAF_REPS if tier == "quick" else lnames)]
+    for o, l in combos:
+        r = emit("c15:expr:%s>%s" % (o, l), byname[o](lv[l]()))
+        if r:
+            yield r
+    for o, i, l in d2:
+        r = emit("c15:expr:%s>%s>%s" % (o, i, l), byname[o](byname[i](lv[l]())))
+        if r:
+            yield r
+    outer3 = ["Call.onlyarg", "Call.arg0of2", "Call.kwvalue", "Subscript.slice", "FormattedValue.value", "Lambda.body", "Tuple.elt1", "Slice.lower", "Dict.value", "IfExp.test"]
+    inner3 = ["NamedExpr.value", "Lambda.body", "Yield.value", "IfExp.body", "Call.star", "GeneratorExp.elt", "Tuple.elt", "UnaryOp.Not"]
+    for o in outer3:
+        for m in (hz if tier == "quick" else names):
+            for i in inner3:
+                for l in ("Name", "Int", "Str"):
+                    r = emit("c15:expr:%s>%s>%s>%s" % (o, m, i, l), byname[o](byname[m](byname[i](lv[l]()))))
+                    if r:
+                        yield r
+    for fam in c03.SHAPES:
+        for k, e in c03.shapes(fam):
+            r = emit("c15:expr:" + k[4:], e)
+            if r:
+                yield r
 
 
 def call_worker(host, doc):
@@ -156,6 +253,27 @@ def main(tier, seed, collect=None):
             if nsample < 4 and key.startswith("c15:fshape"):
                 nsample += 1
                 total.sample({"key": key, "runtime": r, "source": src_of[key][0], "texts": len(ents)})
+    # 4. syntax portability of the oneliner unparser on expression trees (C03's space):
+    #    the text must parse, to the same tree, on every runtime on which the tree is denotable
+    #    (witness: the host's ast.unparse text, or python3.9's re-rendering of it)
+    trees = list(expr_cases(tier))
+    total.c["expression_trees"] = len(trees)
+    tchunks = list(core.chunked(trees, max(200, len(trees) // 32)))
+    norm9 = {}
+    if "py39" in avail:
+        for res in pool.map(lambda ch: call_worker("py39", {"op": "normalise", "jobs": [[k, t12] for k, t12, u in ch]}), tchunks):
+            norm9.update(dict(res))
+    def pc(args):
+        r, ch = args
+        return r, call_worker(r, {"op": "parsecmp", "jobs": [[k, [t12, norm9.get(k)], u] for k, t12, u in ch]})
+    for r, res in pool.map(pc, [(r, ch) for r in avail for ch in tchunks]):
+        for key, diff in res:
+            if diff == "skip":
+                total.c["expression_trees_not_denotable_on:" + r] += 1
+                continue
+            total.c["expression_parse_checks"] += 1
+            if diff:
+                total.fail(key, None, "malformed", "runtime %s: %s" % (r, diff), None, host="conv-%s>run-%s" % (core.HOST, r))
     pool.shutdown()
     c = total.c
     cov = {
